@@ -6,7 +6,6 @@ import (
 	"crypto/sha256"
 	"fmt"
 	"math/big"
-	"math/bits"
 	"reflect"
 	"sync"
 	"sync/atomic"
@@ -185,59 +184,17 @@ func (c *chainCircuit[T]) Define(api frontend.API) error {
 			for k := range o.A {
 				args[k] = a(k)
 			}
-			// Sum does not compare the resulting overflow with the maximum (probe "sum/no-overflow-check"):
-			// reduce the operands first where an Add would have done so.
-			for mo := uint(0); ; {
-				mo = 0
-				for _, e := range args {
-					mo = max(mo, overflowOf(e))
-				}
-				if mo+uint(bits.Len(uint(len(args)))) <= uint(rec.nativeBits-2)-w {
-					break
-				}
-				rec.fallbacks["Sum-operands-reduced(overflow would exceed the maximum)"]++
-				for k, e := range args {
-					if overflowOf(e) == mo {
-						args[k] = f.Reduce(e)
-					}
-				}
-			}
 			out = f.Sum(args...)
 		case "Select":
-			sa := safeOperands(f, rec, []*emulated.Element[T]{a(0), a(1)})
-			out = f.Select(N[o.N[0]], sa[0], sa[1])
+			out = f.Select(N[o.N[0]], a(0), a(1))
 		case "Lookup2":
-			// Lookup2 iterates over the limbs of its first element operand only
-			// (reported separately by a probe); use it when that operand is the
-			// longest, else the equivalent nested selection.
-			longest := true
-			for k := 1; k < 4; k++ {
-				longest = longest && len(a(k).Limbs) <= len(a(0).Limbs)
-			}
-			sa := safeOperands(f, rec, []*emulated.Element[T]{a(0), a(1), a(2), a(3)})
-			if longest {
-				out = f.Lookup2(N[o.N[0]], N[o.N[1]], sa[0], sa[1], sa[2], sa[3])
-			} else {
-				rec.fallbacks["Lookup2->Select(first operand shorter)"]++
-				out = f.Select(N[o.N[1]], f.Select(N[o.N[0]], sa[3], sa[2]), f.Select(N[o.N[0]], sa[1], sa[0]))
-			}
+			out = f.Lookup2(N[o.N[0]], N[o.N[1]], a(0), a(1), a(2), a(3))
 		case "Mux":
 			args := make([]*emulated.Element[T], len(o.A))
-			longest := true
 			for k := range o.A {
 				args[k] = a(k)
-				longest = longest && len(a(k).Limbs) <= len(a(0).Limbs)
 			}
-			args = safeOperands(f, rec, args)
-			if longest {
-				out = f.Mux(N[o.N[0]], args...)
-			} else {
-				rec.fallbacks["Mux->Select(first operand shorter)"]++
-				out = args[len(args)-1]
-				for k := len(args) - 2; k >= 0; k-- {
-					out = f.Select(api.IsZero(api.Sub(N[o.N[0]], k)), args[k], out)
-				}
-			}
+			out = f.Mux(N[o.N[0]], args...)
 		case "Const":
 			out = f.NewElement(new(big.Int).Set(o.C))
 		case "Zero":
@@ -259,14 +216,7 @@ func (c *chainCircuit[T]) Define(api frontend.API) error {
 		case "Sqrt":
 			out = f.Sqrt(a(0))
 		case "Exp":
-			base := a(0)
-			if len(base.Limbs) > int(p.fc.nbLimbs) {
-				// Exp selects between f.Mul(...) results and the (longer) running value: the padding defect
-				// of Select (probe "exp/base-longer-than-modulus") makes that unsatisfiable; reduce first.
-				rec.fallbacks["Exp-base-reduced(longer than the modulus)"]++
-				base = f.Mul(base, f.One()) // Reduce returns a zero-overflow element as is, however long
-			}
-			out = f.Exp(base, a(1))
+			out = f.Exp(a(0), a(1))
 		case "Eval":
 			terms := make([][]*emulated.Element[T], len(o.Terms))
 			for ti, t := range o.Terms {
@@ -326,17 +276,9 @@ func (c *chainCircuit[T]) Define(api frontend.API) error {
 			}
 			of := overflowOf(out)
 			if of > 0 && len(out.Limbs) > 0 && allConstant(api, out.Limbs) {
-				// the builder folded every limb to a constant (x - x, a + b - a, ...) but the element keeps its
-				// overflow: Reduce then panics at compile time and ToBits truncates (probes "constant-folded/...").
-				// Continue the chain with the canonical constant of the same residue.
-				rec.fallbacks["constant-folded-element-with-overflow->canonical-constant"]++
-				v := new(big.Int)
-				for k := len(out.Limbs) - 1; k >= 0; k-- {
-					c, _ := api.Compiler().ConstantValue(out.Limbs[k])
-					v.Lsh(v, w).Add(v, c)
-				}
-				out = f.NewElement(v.Mod(v, p.fc.mod))
-				of = overflowOf(out)
+				// the builder folded every limb to a constant (x - x, a + b - a, ...) while the element keeps its
+				// overflow; the chain continues with it (a later Reduce of it panics at compile time: robustness)
+				rec.fallbacks["seen:constant-folded-element-with-overflow"]++
 			}
 			E[o.Out] = out
 			if of > rec.maxOverflow {
@@ -352,29 +294,6 @@ func (c *chainCircuit[T]) Define(api frontend.API) error {
 		}
 	}
 	return nil
-}
-
-// safeOperands: Select / Lookup2 / Mux pad shorter operands with append(), which
-// writes into the spare capacity of the operand's limb slice.  The result of a
-// multiplication is a sub-slice of the hint output whose spare capacity holds
-// the carry limbs of its deferred check, so the padding overwrites them
-// (reported separately by the probe "select-pads-into-mul-carries").  To keep
-// the chains running, such operands are passed as documented clones
-// (Field.NewElement(*Element)).
-func safeOperands[T emulated.FieldParams](f *emulated.Field[T], rec *defRecord, in []*emulated.Element[T]) []*emulated.Element[T] {
-	maxLen := 0
-	for _, e := range in {
-		maxLen = max(maxLen, len(e.Limbs))
-	}
-	out := make([]*emulated.Element[T], len(in))
-	for i, e := range in {
-		out[i] = e
-		if len(e.Limbs) < maxLen && cap(e.Limbs) > len(e.Limbs) {
-			out[i] = f.NewElement(e)
-			rec.fallbacks["selection-operand-cloned(spare capacity aliases hint outputs)"]++
-		}
-	}
-	return out
 }
 
 func allConstant(api frontend.API, limbs []frontend.Variable) bool {
